@@ -19,6 +19,11 @@ for prof in checked plain; do
   ( cd $A/verif/harness && RUSTFLAGS="--cfg daniel729_chess_verif" CARGO_TARGET_DIR=$A/target-$prof cargo build --profile $prof --offline 2>&1 | grep -E "^error" -A6 | head -20 )
 done
 export VERIF_PLAIN_BIN=$A/target-plain/plain/harness
+# the real binary of the changed tree (conformance stages of C14 / C19)
+case " $* " in *" C14 "*|*" C19 "*)
+  ( cd $A/repo && CARGO_TARGET_DIR=$A/target-repo cargo build --release --offline 2>&1 | grep -E "^error" -A6 | head -20 )
+  export VERIF_REAL_BIN=$A/target-repo/release/rustybait;;
+esac
 for id in "$@"; do
   out=$(cd $A/verif && $A/target-checked/checked/harness $id quick 0 2>&1); rc=$?
   echo "== $id rc=$rc $(echo "$out" | grep -E '^(PASS|FAIL|MACHINERY)' | head -1 | cut -c1-160)"
